@@ -93,6 +93,7 @@ fn default_methods() -> BTreeMap<String, String> {
     m.insert("map".into(), "(List.map {1} {0})".into());
     m.insert("filter".into(), "(List.filter {1} {0})".into());
     m.insert("fold".into(), "(List.foldl {2} {1} {0})".into());
+    m.insert("chain".into(), "({0} ++ {1})".into());
     m.insert("len".into(), "(List.length {0})".into());
     m
 }
@@ -107,6 +108,7 @@ fn default_fns() -> BTreeMap<String, String> {
     m.insert("f64::ceil".into(), "(fceil {0})".into());
     m.insert("f64::signum".into(), "(fsignum {0})".into());
     m.insert("Some".into(), "(some {0})".into());
+    m.insert("iter::once".into(), "[{0}]".into());
     m
 }
 
@@ -1460,7 +1462,18 @@ fn main() {
                 continue;
             }
             let tr = Tr { cfg: &cfg, known: &known, ctr: std::cell::Cell::new(0), loops: std::cell::RefCell::new(vec![]), folds: std::cell::RefCell::new(vec![]) };
-            let result: R<(String, usize, usize, String)> = (|| match &found[0] {
+            // a constant declared inside a function: `kind = const`, `item` = the function, `name` = the constant
+            let inner_const: Option<ItemConst> = if cfg.kind == "const" {
+                if let Found::Fn(_, block) = &found[0] {
+                    block.stmts.iter().find_map(|st| if let Stmt::Item(Item::Const(c)) = st { if c.ident == cfg.name.as_str() { Some(c.clone()) } else { None } } else { None })
+                } else { None }
+            } else { None };
+            if cfg.kind == "const" && inner_const.is_none() && matches!(&found[0], Found::Fn(..)) {
+                errors.push(format!("{}: constant not found inside `{}`", cfg.name, cfg.item));
+                continue;
+            }
+            let found0 = match &inner_const { Some(c) => Found::Const(c), None => match &found[0] { Found::Fn(a, b) => Found::Fn(a, b), Found::Const(c) => Found::Const(c) } };
+            let result: R<(String, usize, usize, String)> = (|| match &found0 {
                 Found::Const(c) => {
                     let v = tr.expr(&c.expr)?;
                     let ty = match &cfg.ret {
